@@ -540,10 +540,13 @@ func init() {
 				}
 			}
 			check(read, map[string]string{"connectors.(*ReadSourceChannel).Start": "inside the read function sent on C"})
-			check(ck, map[string]string{"workers/sourcerunner.(*SourceRunner).createCheckpoint": ""})
+			// cursor snapshots: through the wrapper createCheckpoint called from the event loop, or (wrapper
+			// inlined) directly in the event loop
+			check(ck, map[string]string{"workers/sourcerunner.(*SourceRunner).createCheckpoint": "", "workers/sourcerunner.(*SourceRunner).processEvents": ""})
 			check(as, map[string]string{"workers/sourcerunner.(*SourceRunner).processEvents": ""})
-			cc := r.P.FuncObj("workers/sourcerunner", "(*SourceRunner).createCheckpoint")
-			r.whoMayCall(cc, false, map[string]string{"workers/sourcerunner.(*SourceRunner).processEvents": ""})
+			if ccf := r.P.TryFunc("workers/sourcerunner", "(*SourceRunner).createCheckpoint"); ccf != nil {
+				r.whoMayCall(ccf.Obj, false, map[string]string{"workers/sourcerunner.(*SourceRunner).processEvents": ""})
+			}
 			// ReadEvents sits inside the literal that is SENT on C (so it runs where it is received)
 			cF := r.P.Field("connectors", "ReadSourceChannel", "C")
 			for _, cs := range r.callSitesOf(read, false) {
